@@ -11,7 +11,7 @@ Cmds == <<
   C("option", <<"@", "\"help\"", "ON">>),
   C("add_test", <<"NAME", "@", "COMMAND", "prog">>),
   C("add_test", <<"@", "prog">>),           \* CMake's short form: no NAME keyword
-  C("other", <<"hi", "there">>),
+  C("other", <<"hi", "\"a  b\"", "c\\;d">>),       \* arguments are shown as written: blanks inside quotes, escapes
   Compound("other", <<"NOT", "OR", "C">>, <<"(AANDB)">>, <<"NOT", "(A AND B)", "OR", "C">>),
   C("generic_command", <<"x">>),
   C("cmake_parse_arguments", <<"x", "\"\"", "\"\"", "\"\"">>)
